@@ -26,7 +26,7 @@ ASSUMPTIONS = [
 SEMANTIC = set(['many', 'any', 'one', 'and', 'or', 'not', 'true', 'false', 'empty', 'not_empty', 'cardinality'])
 
 
-def print_cased(ast, case_list, recorder=None):
+def print_cased(ast, case_list, recorder=None, choices=None):
     base = oalsyn.caser(case_list) if case_list else (lambda w: w)
 
     def case(word):
@@ -34,7 +34,10 @@ def print_cased(ast, case_list, recorder=None):
         if recorder is not None:
             recorder.append((word, out))
         return out
-    p = Printer(choose=lambda key, options: options[0], case=case)
+    # optional words (assign, loop, then, instances of) and redundant parentheses are drawn as well, identically for
+    # the lower-case and the re-cased text
+    choose = oalsyn.chooser(choices) if choices else (lambda key, options: options[0])
+    p = Printer(choose=choose, case=case)
     p.block(ast['block'])
     return render(p.toks, [' '], [' '])[0]
 
@@ -91,9 +94,9 @@ def semantic_diff(rec):
 
 def parse_case(case, res=None):
     ast = oalsyn.g_body(oalsyn.Tape(case['tape']))
-    lower = print_cased(ast, None)
+    lower = print_cased(ast, None, None, case.get('choices'))
     rec = []
-    cased = print_cased(ast, case['case'], rec)
+    cased = print_cased(ast, case['case'], rec, case.get('choices'))
     info = dict(case, lower=lower, cased=cased)
     try:
         t0 = oal.parse(lower)
@@ -139,7 +142,7 @@ def interpret_case(case, res=None, flips=False):
         return
     variants = []
     rec = []
-    variants.append((print_cased(ast, case['case'], rec), semantic_diff(rec)))
+    variants.append((print_cased(ast, case['case'], rec, case.get('choices')), semantic_diff(rec)))
     if flips:
         _t, n, _w = print_one_flipped(ast, -1)
         for k in range(n):
@@ -182,9 +185,10 @@ def run(ctx):
         return body
 
     cases_ = st.lists(st.integers(0, 3), min_size=1, max_size=25)
-    hyp_run(ctx, res, st.fixed_dictionaries({'tape': oalsyn.tapes(400, 40), 'case': cases_}), wrap(parse_case),
+    choices_ = st.lists(st.integers(0, 5), min_size=1, max_size=20)
+    hyp_run(ctx, res, st.fixed_dictionaries({'tape': oalsyn.tapes(400, 40), 'case': cases_, 'choices': choices_}), wrap(parse_case),
             ctx.pick(2500, 12000), label='parse')
-    prog = st.fixed_dictionaries({'tape': oalsyn.tapes(600, 60), 'pop': c04_interpret.populations(), 'case': cases_,
+    prog = st.fixed_dictionaries({'tape': oalsyn.tapes(600, 60), 'pop': c04_interpret.populations(), 'case': cases_, 'choices': choices_,
                                   'max_stmts': st.just(ctx.pick(12, 30)), 'max_depth': st.just(ctx.pick(3, 4))})
     hyp_run(ctx, res, prog, wrap(interpret_case), ctx.pick(700, 2500), label='interpret')
     if not ctx.quick:
